@@ -35,8 +35,11 @@ func VerifEncoderState(e *Encoder) (classes []string, refKinds []string, nameMap
 // VerifEncoderRefs returns the reference counter and, for every registered address, its ordinal.
 func VerifEncoderRefs(e *Encoder) (count int, byAddr map[uintptr]int) {
 	byAddr = make(map[uintptr]int, len(e.refMap))
-	for a, r := range e.refMap {
-		byAddr[uintptr(a)] = r.index
+	for k, r := range e.refMap {
+		// a struct and its first field share an address: report the earlier ordinal
+		if old, ok := byAddr[uintptr(k.addr)]; !ok || r.index < old {
+			byAddr[uintptr(k.addr)] = r.index
+		}
 	}
 	return e.refCount, byAddr
 }
